@@ -1,7 +1,7 @@
 (* C11 — Any input yields values or located errors, never a crash (the part the model can carry).  Statements only. *)
 From Coq Require Import ZArith NArith List.
 Import ListNotations.
-From AV Require Import model.Syntax model.Lexer model.Grammar model.Eval model.Run proofs.LexerProofs proofs.BuiltinProofs proofs.NoPanicProofs proofs.SpanProofs.
+From AV Require Import model.Syntax model.Lexer model.Grammar model.Eval model.Run proofs.LexerProofs proofs.BuiltinProofs proofs.NoPanicProofs proofs.SpanProofs proofs.GrammarTotal proofs.QueryNoPanic.
 
 (* Every panic site of the Rust code that the model can express is an explicit [Panic] outcome: the debug assertion of
    Compound::new (1), builder misuse or running out of fuel (3), the debug assertion of round (4). *)
@@ -23,6 +23,17 @@ Theorem C11_round_no_panic : forall span args w, fn_round true span args <> Pani
 Proof. exact fn_round_no_panic. Qed.
 Theorem C11_unit_no_panic : forall children w, eval_unit children <> Panic w.
 Proof. exact eval_unit_no_panic. Qed.
+
+(* parsing never runs out of fuel, for any token list; so for a whole query, from any text: a release build of the model never
+   panics, and a debug build only through the assertion of Compound::new *)
+Theorem C11_parse_total : forall toks : list token, parse_root toks <> None.
+Proof. exact parse_total. Qed.
+Theorem C11_query_only_assertion : forall debug describe facts (s : list chr) r w,
+  In r (fst (query debug describe facts s)) -> r = Panic w -> debug = true /\ w = 1%N.
+Proof. exact query_only_assertion. Qed.
+Theorem C11_release_query_never_panics : forall describe facts (s : list chr) r w,
+  In r (fst (query false describe facts s)) -> r <> Panic w.
+Proof. exact release_query_never_panics. Qed.
 
 (* every error a query reports is located inside the input: its range runs from the start of a syntax node to the end of one,
    0 <= start <= end <= byte length of the text (node boundaries are sums of the byte lengths of whole tokens, which are
